@@ -348,4 +348,25 @@ theorem shift_driver_open_blocks : type_of% @GM.Props.C09Shift.shift_driver_open
 /-- (re-export of `GM.Props.C09Shift.shift_driver_blocks_any_source`) see `GM.Props.C09Shift.shift_driver_blocks_any_source` -/
 theorem shift_driver_blocks_any_source : type_of% @GM.Props.C09Shift.shift_driver_blocks_any_source := @GM.Props.C09Shift.shift_driver_blocks_any_source
 
+/-- (package shiftsim, round 2) **C09 first half with an empty first part**: for EVERY heading text `h` and EVERY document `b`
+    (lists included) the blocks of `"# h\n\n" ++ b` are the heading and the blocks of `b` alone, moved. -/
+theorem independent_blocks_empty_a_all : type_of% @GM.Props.C09Shift.independent_blocks_empty_a_all := @GM.Props.C09Shift.independent_blocks_empty_a_all
+
+/-- (package shiftsim, round 2) step (iv), the composition, for every `a`, `h`, `b`: `IndependentBlocks a h b` follows from ONE explicit
+    hypothesis about the prefix (`PrefixReached`: the joined run passes through a `Start` state behind `a`, its separator and the heading line,
+    and the Document's old children dump like `run a`'s children followed by the moved heading) — steps (i)/(ii), not proved for non-empty `a`. -/
+theorem independent_blocks_from_prefix : type_of% @GM.Props.C09Shift.independent_blocks_from_prefix := @GM.Props.C09Shift.independent_blocks_from_prefix
+
+/-- (re-export of `GM.Props.C09Shift.shift_invariance`) **Shift invariance of the block phase, ALL block parsers, EVERY source `b`** (C09 first half, step (iii), complete).
+    As `shift_invariance_list_free`, without any restriction on `b`; the frame also relates the flag
+    `emptyListItemWithBlankLines` (`F.flag = true`, i.e. `Start` demands that run B's flag is unset, as it is in a fresh
+    run and behind a heading + blank line). -/
+theorem shift_invariance : type_of% @GM.Props.C09Shift.shift_invariance := @GM.Props.C09Shift.shift_invariance
+
+/-- (re-export of `GM.Props.C09Shift.store_acyclic`) **The store of the block phase is acyclic, for EVERY source**: links point downwards — every child has a larger node id
+    than its parent and every parent pointer is smaller than the node's own id (so the children lists describe a forest and
+    `treeOf` does not depend on its fuel once the fuel is at least the store's length); the Document has no lines.
+    An ingredient of C05(b) ("the AST is a tree") as well. -/
+theorem store_acyclic : type_of% @GM.Props.C09Shift.store_acyclic := @GM.Props.C09Shift.store_acyclic
+
 end GM.Props.C09
